@@ -547,6 +547,22 @@ def footprint_task(d):
 # worker: (d) filtered sampling == unfiltered sampling;  all chunks one after another == whole map
 # ------------------------------------------------------------------------------------------------------------
 
+def filtered_layer(route, pio, tile_filter, sampler, depth, csname):
+    """Every public route by which a tile filter reaches a sampling run of one layer."""
+    from toasty import toast
+    cs = coordsys_of(csname)
+    if route == "direct":
+        toast.sample_layer_filtered(pio, tile_filter, sampler, depth, coordsys=cs, parallel=1)
+    elif route == "builder":            # Builder.toast_base(..., is_planet=..., tile_filter=...)
+        from toasty.builder import Builder
+        Builder(pio).toast_base(sampler, depth, is_planet=(csname == "planetary"), tile_filter=tile_filter, parallel=1)
+    elif route == "builder-coordsys":   # Builder.toast_base(..., coordsys=..., tile_filter=...)
+        from toasty.builder import Builder
+        Builder(pio).toast_base(sampler, depth, coordsys=cs, tile_filter=tile_filter, parallel=1)
+    else:
+        raise ValueError(route)
+
+
 def _level_positions(depth):
     from toasty.pyramid import Pos
     return [Pos(depth, x, y) for y in range(2 ** depth) for x in range(2 ** depth)]
@@ -571,7 +587,7 @@ def wcs_layer_task(d):
     pb = PyramidIO(os.path.join(base, "b"), default_format="npy")
     toast.sample_layer(pa, ws.sampler(), d["depth"], coordsys=cs, format="npy", parallel=1)
     g = Guard(ws.filter())
-    toast.sample_layer_filtered(pb, g, ws.sampler(), d["depth"], coordsys=cs, parallel=1)
+    filtered_layer(d.get("route", "direct"), pb, g, ws.sampler(), d["depth"], d["coordsys"])
     res["mut"] = g.mutated[:2]
     for pos in _level_positions(d["depth"]):
         ia = pa.read_image(pos, format="npy")
@@ -607,7 +623,7 @@ def chunk_layer_task(d):
     from toasty import toast
     from toasty.pyramid import PyramidIO
     from toasty.samplers import ChunkedPlateCarreeSampler, plate_carree_planet_sampler
-    res = {"id": d["id"], "viol": [], "mut": [], "tiles": 0, "pixels": 0, "ambiguous": 0, "filter_calls": 0}
+    res = {"id": d["id"], "viol": [], "seam": [], "mut": [], "tiles": 0, "pixels": 0, "ambiguous": 0, "filter_calls": 0}
     W, H, specs = d["W"], d["H"], d["specs"]
     img = FakeChunked(W, H, specs)
     cs = coordsys_of(d["coordsys"])
@@ -621,7 +637,7 @@ def chunk_layer_task(d):
         order.reverse()
     for ich in order:
         g = Guard(chunker.filter(ich))
-        toast.sample_layer_filtered(pb, g, chunker.sampler(ich), d["depth"], coordsys=cs, parallel=1)
+        filtered_layer(d.get("route", "direct"), pb, g, chunker.sampler(ich), d["depth"], d["coordsys"])
         res["filter_calls"] += len(g.verdict)
         res["mut"].extend(g.mutated[:1])
     tiles = {tuple(t.pos): t for t in toast.generate_tiles(d["depth"], bottom_only=True, coordsys=cs)}
@@ -637,8 +653,10 @@ def chunk_layer_task(d):
         clear = edge > 1e-6
         res["ambiguous"] += int((~clear).sum())
         res["pixels"] += int(clear.sum())
+        seam_bad = np.zeros(clear.shape, bool)
         if ib is None:
             bad = clear
+            seam_bad = ~clear
             b = None
         else:
             b = np.asarray(ib.asarray())
@@ -646,6 +664,18 @@ def chunk_layer_task(d):
             differs = np.any(b[..., :3] != a, axis=-1)
             notmap = (b[..., 0] != row) | (b[..., 1] != col)
             bad = clear & (hole | differs | notmap)
+            # a pixel centre ON a cell boundary may take the value of either adjacent map pixel, but "fills every
+            # pixel" still applies to it: it must not be left without data
+            dc = np.abs(b[..., 1].astype(int) - col)
+            near = (np.abs(b[..., 0].astype(int) - row) <= 1) & ((dc <= 1) | (dc == W - 1))
+            seam_bad = ~clear & hole
+            bad = bad | (~clear & ~hole & ~near)
+        if seam_bad.any() and len(res["seam"]) < 3:
+            iy, ix = np.argwhere(seam_bad)[0]
+            res["seam"].append({"tile": tuple(pos), "pixels": int(seam_bad.sum()), "first": [int(iy), int(ix)],
+                                "lonlat_deg": [float(np.degrees(lon[::-1][iy, ix] if pa.get_default_vertical_parity_sign() == 1 else lon[iy, ix])),
+                                               float(np.degrees(lat[::-1][iy, ix] if pa.get_default_vertical_parity_sign() == 1 else lat[iy, ix]))],
+                                "whole_map": a[iy, ix].tolist(), "map_pixel_row_col": [int(row[iy, ix]), int(col[iy, ix])]})
         if bad.any():
             iy, ix = np.argwhere(bad)[0]
             res["viol"].append({"tile": tuple(pos), "pixels": int(bad.sum()), "first": [int(iy), int(ix)],
@@ -653,6 +683,147 @@ def chunk_layer_task(d):
                                 "map_pixel_row_col": [int(row[iy, ix]), int(col[iy, ix])]})
             if len(res["viol"]) >= 3:
                 break
+    return res
+
+
+def fits_tiler_task(d):
+    """tile_fits / FitsTiler in TOAST mode on a collection of several images: every image is sampled through its own
+    footprint filter and the pyramid is then downsampled through the UNION of the footprint filters.  Sentence checked:
+    the filtered run gives the pixel values of the run that visits every tile - at the base level (against sampling every
+    image with an accept-all filter) and at every shallower level (against the exhaustive cascade of the same base)."""
+    import shutil
+    import numpy as np
+    from astropy.io import fits as afits
+    from toasty import TilingMethod, tile_fits, toast
+    from toasty.merge import averaging_merger, cascade_images
+    from toasty.pyramid import PyramidIO
+    from toasty.samplers import WcsSampler
+    res = {"id": d["id"], "viol": [], "mut": [], "tiles": 0, "finite_pixels": 0, "levels": d["start"] + 1}
+    rng = np.random.default_rng(d["seed"])
+    base = tempfile.mkdtemp(prefix="ft-", dir=d["scratch"])
+    imgs = []
+    for k, im in enumerate(d["images"]):
+        data = rng.uniform(1.0, 2.0, size=(im["ny"], im["nx"])).astype(np.float32) + 10 * k
+        data[rng.uniform(size=data.shape) < 0.03] = np.nan
+        imgs.append((data, make_wcs(im)))
+    paths, hdus = [], []
+    if d["layout"] == "same-file":          # one multi-extension file listed once per extension
+        hl = afits.HDUList([afits.PrimaryHDU()] + [afits.ImageHDU(data=a, header=w.to_header()) for a, w in imgs])
+        path = os.path.join(base, "mosaic.fits")
+        hl.writeto(path)
+        paths, hdus = [path] * len(imgs), list(range(1, len(imgs) + 1))
+    elif d["layout"] == "mixed":            # the first two images share a file, the others have their own
+        hl = afits.HDUList([afits.PrimaryHDU()] + [afits.ImageHDU(data=a, header=w.to_header()) for a, w in imgs[:2]])
+        path = os.path.join(base, "pair.fits")
+        hl.writeto(path)
+        paths, hdus = [path, path], [1, 2]
+        for k, (a, w) in enumerate(imgs[2:]):
+            path = os.path.join(base, "img%d.fits" % k)
+            afits.HDUList([afits.PrimaryHDU(), afits.ImageHDU(data=a, header=w.to_header())]).writeto(path)
+            paths.append(path)
+            hdus.append(1)
+    else:                                   # one file per image
+        for k, (a, w) in enumerate(imgs):
+            path = os.path.join(base, "img%d.fits" % k)
+            afits.HDUList([afits.PrimaryHDU(), afits.ImageHDU(data=a, header=w.to_header())]).writeto(path)
+            paths.append(path)
+            hdus.append(1)
+    out_dir = os.path.join(base, "tiled")
+    start = d["start"]
+    tile_fits(fits=paths, hdu_index=hdus, out_dir=out_dir, tiling_method=TilingMethod.TOAST, parallel=1, override=True, start=start)
+    obs = PyramidIO(out_dir, default_format="fits")
+    # exhaustive base layer: every image through a filter that accepts every tile
+    refb = PyramidIO(os.path.join(base, "refbase"), default_format="fits")
+    for a, w in imgs:
+        toast.sample_layer_filtered(refb, lambda t: True, WcsSampler(a, w).sampler(), start, parallel=1)
+    # exhaustive cascade of the very base layer the filtered run produced
+    refc_dir = os.path.join(base, "refcascade")
+    os.makedirs(refc_dir)
+    shutil.copytree(os.path.join(out_dir, str(start)), os.path.join(refc_dir, str(start)))
+    refc = PyramidIO(refc_dir, default_format="fits")
+    cascade_images(refc, start, averaging_merger, parallel=1)
+
+    def arr(pio, pos):
+        img = pio.read_image(pos, format="fits")
+        return None if img is None else np.asarray(img.asarray(), dtype=np.float64)
+    for n in range(start, -1, -1):
+        for pos in _level_positions(n):
+            ref = arr(refb if n == start else refc, pos)
+            if ref is None:
+                continue
+            res["tiles"] += 1
+            fr = np.isfinite(ref)
+            if not fr.any():
+                continue
+            res["finite_pixels"] += int(fr.sum())
+            got = arr(obs, pos)
+            bad = fr if got is None else (fr & ~(np.isfinite(got) & (np.where(fr, got, 0) == np.where(fr, ref, 0))))
+            if bad.any() and len(res["viol"]) < 4:
+                iy, ix = np.argwhere(bad)[0]
+                res["viol"].append({"level": n, "base": n == start, "tile": tuple(pos), "pixels": int(bad.sum()), "first": [int(iy), int(ix)],
+                                    "exhaustive": float(ref[iy, ix]), "filtered": None if got is None else float(got[iy, ix])})
+    return res
+
+
+def chunk_edge_task(d):
+    """(c) directed: along the inside of every edge of every chunk, every tile down to tiles much smaller than a map
+    cell that has a pixel centre in the chunk must be accepted by the chunk's filter on its whole path."""
+    import numpy as np
+    from toasty import toast
+    from toasty.samplers import ChunkedPlateCarreeSampler
+    W, H, specs, csname = d["W"], d["H"], d["specs"], d["coordsys"]
+    cs = coordsys_of(csname)
+    res = {"viol": [], "mut": [], "raised": [], "tiles_seen": 0, "exact": 0, "calls": 0}
+    chunker = ChunkedPlateCarreeSampler(FakeChunked(W, H, specs), planetary=True)
+    cell_lon, cell_lat = TWOPI / W, math.pi / H
+    frac = 0.12                                        # strip: the outer 12 % of a map cell inside the chunk edge
+    for ich, (x0, y0, cw, ch) in enumerate(specs):
+        try:
+            g = Guard(chunker.filter(ich))
+        except Exception as e:  # noqa
+            res["raised"].append({"region": repr(("chunk", W, H, ich)), "error": repr(e)})
+            continue
+        lon_l, lon_r = TWOPI * x0 / W - math.pi, TWOPI * (x0 + cw) / W - math.pi
+        lat_u, lat_d = math.pi / 2 - math.pi * y0 / H, math.pi / 2 - math.pi * (y0 + ch) / H
+        mid_lon, mid_lat = 0.5 * (lon_l + lon_r), 0.5 * (lat_u + lat_d)
+        half_lon = min(0.5 * (lon_r - lon_l), math.radians(8))
+        half_lat = min(0.5 * (lat_u - lat_d), math.radians(8))
+        strips = [  # (latmin, latmax, arc start, arc span)
+            (lat_u - frac * cell_lat, lat_u, (mid_lon - half_lon) % TWOPI, 2 * half_lon),       # north edge
+            (lat_d, lat_d + frac * cell_lat, (mid_lon - half_lon) % TWOPI, 2 * half_lon),       # south edge
+            (mid_lat - half_lat, mid_lat + half_lat, lon_l % TWOPI, frac * cell_lon),           # west edge
+            (mid_lat - half_lat, mid_lat + half_lat, (lon_r - frac * cell_lon) % TWOPI, frac * cell_lon),   # east edge
+        ]
+        for si, strip in enumerate(strips):
+            thick = frac * (cell_lat if si < 2 else cell_lon * max(math.cos(mid_lat), 0.2))
+            depth = int(max(2, min(9, math.ceil(math.log2((math.pi / 2) / (0.5 * thick))) + 1)))
+            hulls = {}
+
+            def pre(tile, strip=strip):
+                h = corner_hull(tile)
+                hulls[tuple(tile.pos)] = h
+                return tile.pos.n == 1 or hull_meets(h, strip, 0.0)
+            tl = list(toast.generate_tiles_filtered(depth, pre, bottom_only=False, coordsys=cs))
+            res["tiles_seen"] += len(tl)
+            first_of = {}
+            for t in sorted(tl, key=lambda t: t.pos.n):
+                p = tuple(t.pos)
+                acc = bool(g(t))
+                par = first_of.get((p[0] - 1, p[1] >> 1, p[2] >> 1)) if p[0] > 1 else None
+                first = par if par is not None else (None if acc else p)
+                first_of[p] = first
+                if first is None or not hull_meets(hulls[p], strip, 0.0) or res["exact"] >= 40 or len(res["viol"]) >= 3:
+                    continue
+                res["exact"] += 1
+                lon, lat = toast.toast_tile_get_coords(t)
+                col, row, edge = map_cell(lon, lat, W, H)
+                m = (edge > 1e-6) & (col >= x0) & (col < x0 + cw) & (row >= y0) & (row < y0 + ch)
+                if m.any():
+                    iy, ix = np.argwhere(m)[0]
+                    res["viol"].append({"region": ["chunk", W, H, [x0, y0, cw, ch]], "coordsys": csname, "tile": p, "rejected_at": first,
+                                        "pixels_inside": int(m.sum()), "pixel": [int(iy), int(ix)], "lonlat": [float(lon[iy, ix]), float(lat[iy, ix])]})
+        res["calls"] += len(g.verdict)
+        res["mut"].extend(g.mutated[:1])
     return res
 
 
@@ -667,12 +838,25 @@ def _dispatch(task):
             return kind, wcs_layer_task(arg)
         if kind == "clayer":
             return kind, chunk_layer_task(arg)
+        if kind == "ftiler":
+            return kind, fits_tiler_task(arg)
+        if kind == "cedge":
+            return kind, chunk_edge_task(arg)
     except Exception as e:  # noqa
         import traceback
         tb = traceback.extract_tb(e.__traceback__)
         root = os.path.realpath(os.environ.get("VERIF_REPO", "/repo"))
-        in_toasty = bool(tb) and os.path.realpath(tb[-1].filename).startswith(os.path.join(root, "toasty"))
-        where = "%s:%s" % (os.path.basename(tb[-1].filename), tb[-1].name) if tb else "?"
+        # innermost frame that belongs to either the harness or toasty decides who raised (libraries called by toasty
+        # count as toasty, libraries called by the harness as the harness)
+        in_toasty, where = False, "?"
+        for fr in reversed(tb):
+            fn = os.path.realpath(fr.filename)
+            if fn.startswith(os.path.join(root, "toasty")):
+                in_toasty, where = True, "%s:%s" % (os.path.basename(fr.filename), fr.name)
+                break
+            if fn.startswith(os.path.realpath(os.path.dirname(os.path.dirname(__file__)))):
+                where = "%s:%s" % (os.path.basename(fr.filename), fr.name)
+                break
         return ("raised" if in_toasty else "crash"), {"kind": kind, "arg": repr(arg)[:400], "where": where, "error": repr(e)[:300],
                                                      "trace": traceback.format_exc()[-1500:]}
     return "crash", {"kind": kind, "trace": "unknown task"}
@@ -792,6 +976,7 @@ INVARIANT NoFalseNegative
 INVARIANT NoFalsePositive
 INVARIANT SortOK
 INVARIANT UnwrapOK
+INVARIANT UnionNoFalseNegative
 %s
 INVARIANT Emit
 CHECK_DEADLOCK FALSE
@@ -1004,27 +1189,46 @@ def _run(ctx, pool, scratch, quick, rng):
     # ---------------------------------------------------------------- inputs
     fps = gen_footprints(rng, quick)
     lengths = sorted(set([d["nx"] for d in fps] + [d["ny"] for d in fps]))
-    boxes = gen_boxes(rng, 500 if quick else 4000)
+    boxes = gen_boxes(rng, 400 if quick else 4000)
     wl_cases = [
         {"nx": 40, "ny": 32, "scale": 1.3, "theta": 0.5, "parity": 1, "ra": 2.0, "dec": 12.0, "crpix": [20.5, 16.5], "depth": 3, "coordsys": "astronomical"},
-        {"nx": 36, "ny": 50, "scale": 0.8, "theta": 2.2, "parity": -1, "ra": 181.0, "dec": -35.0, "crpix": [15.0, 30.0], "depth": 2, "coordsys": "planetary"},
+        {"nx": 36, "ny": 50, "scale": 0.8, "theta": 2.2, "parity": -1, "ra": 181.0, "dec": -35.0, "crpix": [15.0, 30.0], "depth": 2, "coordsys": "planetary", "route": "builder"},
         {"nx": 64, "ny": 48, "scale": 0.5, "theta": 4.0, "parity": 1, "ra": 300.0, "dec": 48.0, "crpix": [32.5, 24.5], "depth": 3 if quick else 4, "coordsys": "astronomical"},
     ]
     if not quick:
         wl_cases += [
-            {"nx": 90, "ny": 70, "scale": 0.7, "theta": 1.0, "parity": -1, "ra": 359.0, "dec": -20.0, "crpix": [45.5, 35.5], "depth": 4, "coordsys": "astronomical"},
+            {"nx": 90, "ny": 70, "scale": 0.7, "theta": 1.0, "parity": -1, "ra": 359.0, "dec": -20.0, "crpix": [45.5, 35.5], "depth": 4, "coordsys": "astronomical", "route": "builder"},
             {"nx": 120, "ny": 120, "scale": 0.3, "theta": 0.0, "parity": 1, "ra": 90.0, "dec": 90.0, "crpix": [60.5, 60.5], "depth": 3, "coordsys": "astronomical"},
-            {"nx": 50, "ny": 40, "scale": 1.0, "theta": 5.1, "parity": 1, "ra": 45.0, "dec": 30.0, "crpix": [25.5, 20.5], "depth": 4, "coordsys": "planetary"},
+            {"nx": 50, "ny": 40, "scale": 1.0, "theta": 5.1, "parity": 1, "ra": 45.0, "dec": 30.0, "crpix": [25.5, 20.5], "depth": 4, "coordsys": "planetary", "route": "builder-coordsys"},
+            {"nx": 36, "ny": 50, "scale": 0.8, "theta": 2.2, "parity": -1, "ra": 181.0, "dec": -35.0, "crpix": [15.0, 30.0], "depth": 3, "coordsys": "planetary", "route": "direct"},
         ]
     for i, c in enumerate(wl_cases):
         c.update(id=i, seed=ctx.seed * 1000 + i, scratch=scratch)
-    # chunk configurations: small ones exhaustively for the theorems, a few larger ones that are also sampled for real
-    small = [(w, h, tw, th) for w in range(1, (5 if quick else 8) + 1) for h in range(1, (4 if quick else 6) + 1)
-             for tw in range(1, w + 1) for th in range(1, h + 1)]
-    sampled = [((21, 11, 8, 4), 2, "planetary", False), ((16, 8, 8, 8), 3, "astronomical", False), ((9, 5, 4, 2), 1, "planetary", True)]
+
+    def ft_image(nx, ny, scale, ra, dec):
+        return {"nx": nx, "ny": ny, "scale": scale, "theta": rng.uniform(0, TWOPI), "parity": rng.choice([-1, 1]), "ra": ra, "dec": dec,
+                "crpix": [(nx + 1) / 2.0, (ny + 1) / 2.0]}
+    ra0 = rng.uniform(0, 360)
+    ft_cases = [{"layout": "same-file", "start": 3, "images": [ft_image(24, 20, 1.0, ra0, rng.uniform(-40, 40)),
+                                                              ft_image(20, 24, 1.2, (ra0 + rng.uniform(120, 240)) % 360, rng.uniform(-40, 40))]}]
     if not quick:
-        sampled += [((37, 19, 10, 7), 3, "planetary", False), ((24, 12, 8, 12), 4, "planetary", False), ((21, 11, 8, 4), 3, "astronomical", True),
-                    ((15, 7, 15, 3), 3, "planetary", False)]
+        for layout, n in (("separate", 2), ("mixed", 3), ("same-file", 3)):
+            ra0 = rng.uniform(0, 360)
+            ft_cases.append({"layout": layout, "start": 3, "images": [ft_image(rng.choice([20, 28, 40]), rng.choice([20, 28, 40]), rng.uniform(0.6, 1.2),
+                                                                              (ra0 + 360.0 * k / n + rng.uniform(-20, 20)) % 360, rng.uniform(-50, 50)) for k in range(n)]})
+    for i, c in enumerate(ft_cases):
+        c.update(id=i, seed=ctx.seed * 1000 + 500 + i, scratch=scratch)
+    # chunk configurations: small ones exhaustively for the theorems, a few larger ones that are also sampled for real
+    small = [(w, h, tw, th) for w in range(1, (4 if quick else 8) + 1) for h in range(1, (3 if quick else 6) + 1)
+             for tw in range(1, w + 1) for th in range(1, h + 1)]
+    # (configuration, depth, coordinate system, reverse chunk order, route); (16, 8, 14, 8) has a seam on the lon = 135 deg
+    # meridian, which passes through TOAST pixel centres
+    sampled = [((15, 7, 6, 3), 2, "planetary", False, "builder"), ((16, 8, 8, 8), 3, "astronomical", False, "direct"),
+               ((16, 8, 14, 8), 2, "planetary", False, "direct"), ((9, 5, 4, 2), 1, "astronomical", True, "builder-coordsys")]
+    if not quick:
+        sampled += [((37, 19, 10, 7), 3, "planetary", False, "builder"), ((24, 12, 8, 12), 4, "planetary", False, "direct"),
+                    ((21, 11, 8, 4), 3, "astronomical", True, "builder"), ((15, 7, 15, 3), 3, "planetary", False, "builder-coordsys"),
+                    ((64, 4, 24, 4), 2, "astronomical", False, "direct"), ((48, 6, 18, 3), 2, "planetary", False, "builder"), ((21, 11, 8, 4), 2, "planetary", False, "direct")]
     chunk_cfgs = sorted(set(small) | set(s[0] for s in sampled))
     G = 4
     # ---------------------------------------------------------------- work that needs nothing from TLC starts now
@@ -1032,6 +1236,8 @@ def _run(ctx, pool, scratch, quick, rng):
     order = sorted(fps, key=lambda d: -(d["nx"] + d["ny"]))
     for d in order:
         pending.append(pool.apply_async(_dispatch, (("foot", d),)))
+    for c in ft_cases:
+        pending.append(pool.apply_async(_dispatch, (("ftiler", c),)))
     for c in wl_cases:
         pending.append(pool.apply_async(_dispatch, (("wlayer", c),)))
     # ---------------------------------------------------------------- TLC (concurrently)
@@ -1040,10 +1246,10 @@ def _run(ctx, pool, scratch, quick, rng):
     def tlc_chunks():
         return ctx.tlc("MCChunks", extra={"MCChunks.tla": tla.module("MCChunks", ["Chunks", "Json"], [
             ("MCConfigs", tla.lit(set(chunk_cfgs))),
-            'Emit == i = -1 => PrintT(<<"C", ToJson([cf |-> c, n |-> NChunks(c), specs |-> [k \\in 1..NChunks(c) |-> ChunkSpec(c, k - 1)], '
+            'Emit == i = -2 => PrintT(<<"C", ToJson([cf |-> c, n |-> NChunks(c), specs |-> [k \\in 1..NChunks(c) |-> ChunkSpec(c, k - 1)], '
             'bounds |-> [k \\in 1..NChunks(c) |-> BoundsPi(c, k - 1)]])>>)'])},
             cfg_text="SPECIFICATION Spec\nCONSTANTS\n Configs <- MCConfigs\nINVARIANT Partition\nINVARIANT ChunkShape\nINVARIANT BoxIsChunk\n"
-                     "INVARIANT SamplerIsChunk\nINVARIANT NoHoles\nINVARIANT Emit\nCHECK_DEADLOCK FALSE\n", workers=6, timeout=3000)
+                     "INVARIANT SamplerIsChunk\nINVARIANT NoHoles\nINVARIANT SeamsCovered\nINVARIANT SeamIsLocalTie\nINVARIANT Emit\nCHECK_DEADLOCK FALSE\n", workers=6, timeout=3000)
 
     def tlc_bbox(g, extra_inv):
         text, lb = bbox_module(g)
@@ -1067,14 +1273,17 @@ def _run(ctx, pool, scratch, quick, rng):
     if len(crecs) != len(chunk_cfgs):
         ctx.machinery("TLC emitted %d chunk grids for %d configurations" % (len(crecs), len(chunk_cfgs)))
     chunk_regions = []
-    for cf, depth, csname, rev in sampled:
+    for cf, depth, csname, rev, route in sampled:
         r = crecs[cf]
         for ich in range(r["n"]):
             chunk_regions.append(("chunk", cf[0], cf[1], [tuple(s) for s in r["specs"]], ich))
     seen_cf = set()
-    for k, (cf, depth, csname, rev) in enumerate(sampled):
+    for k, (cf, depth, csname, rev, route) in sorted(enumerate(sampled), key=lambda kv: -kv[1][1]):
         pending.append(pool.apply_async(_dispatch, (("clayer", {"id": k, "W": cf[0], "H": cf[1], "specs": [tuple(s) for s in crecs[cf]["specs"]],
-                                                               "depth": depth, "coordsys": csname, "reverse": rev, "scratch": scratch}),)))
+                                                               "depth": depth, "coordsys": csname, "reverse": rev, "route": route, "scratch": scratch}),)))
+    for cf in sorted(set(sm[0] for sm in sampled)):
+        for csname in ("planetary", "astronomical"):
+            pending.append(pool.apply_async(_dispatch, (("cedge", {"W": cf[0], "H": cf[1], "specs": [tuple(s) for s in crecs[cf]["specs"]], "coordsys": csname}),)))
     uniq_chunk_regions = [r for r in chunk_regions if not ((r[1], r[2], r[4], len(r[3])) in seen_cf or seen_cf.add((r[1], r[2], r[4], len(r[3]))))]
     regions = boxes + uniq_chunk_regions
     real_depth = {"astronomical": 4, "planetary": 3 if quick else 4}
@@ -1119,7 +1328,7 @@ def _run(ctx, pool, scratch, quick, rng):
             crashes.append(r)
             continue
         if kind == "raised":        # the code under test raised while building / applying a filter or sampling with it
-            _violation(ctx, "C07:%s:raises" % {"real": "box-or-chunk-filter", "foot": "wcs-filter", "wlayer": "sample-layer-filtered", "clayer": "chunked-sampling"}[r["kind"]],
+            _violation(ctx, "C07:%s:raises" % {"real": "box-or-chunk-filter", "foot": "wcs-filter", "wlayer": "sample-layer-filtered", "clayer": "chunked-sampling", "ftiler": "fits-tiler", "cedge": "box-or-chunk-filter"}[r["kind"]],
                           "toasty raised %s in %s while a filter was built / applied / sampled through (%s task)" % (r["error"], r["where"], r["kind"]), r)
             continue
         for m in r.get("mut", []):
@@ -1145,16 +1354,41 @@ def _run(ctx, pool, scratch, quick, rng):
             ctx.add_note("wcs_layer_finite_pixels_compared", r["finite_pixels"])
             ctx.distinct(("wlayer", r["id"]))
             for v in r["viol"]:
-                _violation(ctx, "C07:sample-layer-filtered:differs", "sample_layer_filtered with the image's own filter differs from sample_layer in tile %s: %d pixels, e.g. %s unfiltered %r filtered %r (filter verdicts on the path %s)"
-                              % (v["tile"], v["pixels"], v["first"], v["unfiltered"], v["filtered"], v["filter_verdicts_on_path"]), {"case": {k: x for k, x in wl_cases[r["id"]].items() if k != "scratch"}, "detail": v})
+                _violation(ctx, "C07:sample-layer-filtered:differs", "filtered sampling (route %s, %s) with the image's own filter differs from sample_layer in tile %s: %d pixels, e.g. %s unfiltered %r filtered %r (filter verdicts on the path %s)"
+                              % (wl_cases[r["id"]].get("route", "direct"), wl_cases[r["id"]]["coordsys"], v["tile"], v["pixels"], v["first"], v["unfiltered"], v["filtered"], v["filter_verdicts_on_path"]), {"case": {k: x for k, x in wl_cases[r["id"]].items() if k != "scratch"}, "detail": v})
+        elif kind == "cedge":
+            ctx.count(r["calls"])
+            ctx.add_note("chunk_edge_tiles_examined", r["tiles_seen"])
+            for rr in r["raised"]:
+                _violation(ctx, "C07:box-or-chunk-filter:raises", "the filter factory raised %s for the valid region %s" % (rr["error"], rr["region"]), rr)
+            for v in r["viol"]:
+                _violation(ctx, "C07:chunk-filter:false-negative", "tile %s (%s) has %d pixel centres inside %s but the chunk filter rejects %s on its path; e.g. pixel %s at lon/lat %s"
+                           % (v["tile"], v["coordsys"], v["pixels_inside"], v["region"], v["rejected_at"], v["pixel"], v["lonlat"]), v)
+        elif kind == "ftiler":
+            ctx.count(r["tiles"])
+            ctx.add_note("fits_tiler_finite_pixels_compared", r["finite_pixels"])
+            ctx.distinct(("ftiler", r["id"]))
+            case = {k: x for k, x in ft_cases[r["id"]].items() if k != "scratch"}
+            for v in r["viol"]:
+                if v["base"]:
+                    _violation(ctx, "C07:fits-tiler:base-layer-differs", "tile_fits (TOAST, %d images, layout %s): base tile %s lacks/changes %d pixels that sampling every tile gives, e.g. %s exhaustive %r filtered %r"
+                               % (len(case["images"]), case["layout"], v["tile"], v["pixels"], v["first"], v["exhaustive"], v["filtered"]), {"case": case, "detail": v})
+                else:
+                    _violation(ctx, "C07:fits-tiler:cascade-drops-data", "tile_fits (TOAST, %d images, layout %s): the downsampling stage, pruned by the union of the footprint filters, leaves tile %s "
+                               "without %d pixels that the exhaustive cascade of the same base layer has, e.g. %s exhaustive %r filtered %r"
+                               % (len(case["images"]), case["layout"], v["tile"], v["pixels"], v["first"], v["exhaustive"], v["filtered"]), {"case": case, "detail": v})
         elif kind == "clayer":
             ctx.count(r["tiles"] + r["filter_calls"])
             ctx.add_note("chunked_pixels_compared", r["pixels"])
-            ctx.add_note("chunked_pixels_on_a_cell_boundary_excluded", r["ambiguous"])
+            ctx.add_note("chunked_pixels_on_a_cell_boundary_either_neighbour_accepted", r["ambiguous"])
             ctx.distinct(("clayer", r["id"]))
+            for v in r["seam"]:
+                _violation(ctx, "C07:chunked-sampling:seam-hole", "sampling all chunks of map %s (%s, route %s) one after another leaves %d pixel centres of tile %s that lie on a chunk seam without data "
+                           "(e.g. pixel %s at lon/lat %s deg; whole-map sampling gives %s)" % (sampled[r["id"]][0], sampled[r["id"]][2], sampled[r["id"]][4], v["pixels"], v["tile"], v["first"],
+                                                                                       [round(x, 9) for x in v["lonlat_deg"]], v["whole_map"]), {"config": sampled[r["id"]], "detail": v})
             for v in r["viol"]:
-                _violation(ctx, "C07:chunked-sampling:differs", "sampling all chunks of map %s one after another leaves tile %s different from whole-map sampling in %d pixels: pixel %s whole-map %s chunked %s (map pixel row/col %s)"
-                              % (sampled[r["id"]][0], v["tile"], v["pixels"], v["first"], v["whole_map"], v["chunked"], v["map_pixel_row_col"]), {"config": sampled[r["id"]], "detail": v})
+                _violation(ctx, "C07:chunked-sampling:differs", "sampling all chunks of map %s (%s, route %s) one after another leaves tile %s different from whole-map sampling in %d pixels: pixel %s whole-map %s chunked %s (map pixel row/col %s)"
+                              % (sampled[r["id"]][0], sampled[r["id"]][2], sampled[r["id"]][4], v["tile"], v["pixels"], v["first"], v["whole_map"], v["chunked"], v["map_pixel_row_col"]), {"config": sampled[r["id"]], "detail": v})
     for ri in range(len(regions)):
         if rejected[ri] > 0:
             ctx.distinct(("region", ri))
